@@ -27,4 +27,29 @@ HarnessEnvPrecedence cmd valuecap=3
 HarnessDeployGate server targets=1,probes=1,clients=1,preemptions=0,firings=10
 HarnessPauseHoldDirected server preemptions=0,firings=10
 LIST
+# (3) litmus programs for the T2 engine: known races, lost updates, deadlocks and their absence must be reported as such
+while read h want; do
+  got=$(./bin/gosym run -harness HarnessLitmus$h -timeout 300 2>&1 | python3 -c "
+import sys,json
+t=sys.stdin.read(); i=t.index('{'); j=t.rindex('}'); r=json.loads(t[i:j+1])
+kinds=set()
+for v in r['violations'] or []:
+    k=v['Kind']
+    if k=='assert' and 'race expected' in v['Label']: continue   # mirrors the race report
+    if k=='assert' and 'lost update expected' in v['Label']: k='lost-update'
+    kinds.add(k)
+print('+'.join(sorted(kinds)) or 'clean', 'unsupported' if r['unsupported'] else '')")
+  echo "litmus $h: $got (expected $want)"
+  [ "$(echo $got)" = "$want" ] || { echo "LITMUS MISMATCH on $h"; fail=1; }
+done <<'LIST'
+RacyCounter race
+LockedCounter clean
+SplitSection lost-update
+Deadlock deadlock
+ChannelHandoff clean
+RWMutex clean
+RWMutexMissingRLock race
+Timers clean
+OnceAtomic clean
+LIST
 [ $fail = 0 ] && echo "SELFTEST OK" || { echo "SELFTEST FAILED"; exit 1; }
